@@ -97,6 +97,7 @@ def cases(ctx):
                "nb_samples": int(rng.choice([20, 50, 120])), "strat": [None, "by_group", "by_label"][int(rng.integers(0, 3))],
                "alpha": float(rng.choice([0.05, 0.1, 0.32])), "sc": sc, "ec": ec, "default_cfg": bool(rng.random() < 0.2),
                "index": str(rng.choice(["range", "range", "shuffled", "duplicated", "strings"])), "extra_col": bool(rng.random() < 0.3),
+               "gdtype": str(rng.choice(["plain", "plain", "plain", "cat_lex", "cat_perm", "cat_perm"])),
                "_seed": int(rng.integers(1 << 31))}
 
 
@@ -141,6 +142,15 @@ def execute(ctx, case):
     pos_label = "y" if case["strlab"] else 1
     df = pd.DataFrame({**cols, "score": score, "label": labels})
     # the frame's index and unrelated columns are irrelevant to the result: rows are what counts
+    # the container type of the group columns is irrelevant too: object/str columns, or pandas Categorical with any category order
+    gd = case.get("gdtype", "plain")
+    if gd != "plain":
+        rs_ = np.random.default_rng(case["_seed"] + 17)
+        for c in gcols:
+            cats = sorted(set(cols[c]))
+            if gd == "cat_perm":
+                cats = [cats[i] for i in rs_.permutation(len(cats))]
+            df[c] = pd.Categorical(cols[c], categories=cats, ordered=bool(gd == "cat_perm" and rs_.random() < 0.5))
     idx_kind = case.get("index", "range")
     if idx_kind == "shuffled":
         df.index = np.random.default_rng(case["_seed"]).permutation(len(df)) * 3 + 7
